@@ -475,10 +475,13 @@ static void read_delta_params(ParseCtxt *parse_ctxt, PartitionInfo *xd) {
     }
 }
 
-int intra_angle_info(SvtReader *r, AomCdfProb *cdf, PredictionMode mode, BlockSize bsize) {
+int intra_angle_info(SvtReader *r, AomCdfProb (*angle_delta_cdf)[CDF_SIZE(2 * MAX_ANGLE_DELTA + 1)],
+                     PredictionMode mode, BlockSize bsize) {
     int angle_delta_y = 0;
     if (av1_use_angle_delta(bsize, EB_TRUE) && av1_is_directional_mode(mode)) {
-        const int sym = svt_read_symbol(r, cdf, 2 * MAX_ANGLE_DELTA + 1, ACCT_STR);
+        // only directional modes have a row in angle_delta_cdf: index it here, not at the call site
+        const int sym = svt_read_symbol(
+            r, angle_delta_cdf[mode - V_PRED], 2 * MAX_ANGLE_DELTA + 1, ACCT_STR);
         angle_delta_y = sym - MAX_ANGLE_DELTA;
     }
     return angle_delta_y;
@@ -665,7 +668,7 @@ void intra_frame_mode_info(EbDecHandle *dec_handle, ParseCtxt *parse_ctxt, Parti
         mbmi->mode             = read_intra_mode(r, y_mode_cdf);
         mbmi->angle_delta[PLANE_TYPE_Y] = intra_angle_info(
             r,
-            &parse_ctxt->cur_tile_ctx.angle_delta_cdf[mbmi->mode - V_PRED][0],
+            parse_ctxt->cur_tile_ctx.angle_delta_cdf,
             mbmi->mode,
             bsize);
         if (xd->is_chroma_ref && !color_config.mono_chrome) {
@@ -679,7 +682,7 @@ void intra_frame_mode_info(EbDecHandle *dec_handle, ParseCtxt *parse_ctxt, Parti
             }
             mbmi->angle_delta[PLANE_TYPE_UV] = intra_angle_info(
                 r,
-                &parse_ctxt->cur_tile_ctx.angle_delta_cdf[mbmi->uv_mode - V_PRED][0],
+                parse_ctxt->cur_tile_ctx.angle_delta_cdf,
                 get_uv_mode(mbmi->uv_mode),
                 bsize);
         } else
@@ -1106,7 +1109,7 @@ void intra_block_mode_info(ParseCtxt *parse_ctxt, PartitionInfo *xd) {
     mbmi->mode = read_intra_mode(r, parse_ctxt->cur_tile_ctx.y_mode_cdf[size_group_lookup[bsize]]);
 
     mbmi->angle_delta[PLANE_TYPE_Y] = intra_angle_info(
-        r, &parse_ctxt->cur_tile_ctx.angle_delta_cdf[mbmi->mode - V_PRED][0], mbmi->mode, bsize);
+        r, parse_ctxt->cur_tile_ctx.angle_delta_cdf, mbmi->mode, bsize);
 
     if (xd->is_chroma_ref && !color_cfg->mono_chrome) {
         mbmi->uv_mode = read_intra_mode_uv(&parse_ctxt->cur_tile_ctx,
@@ -1119,7 +1122,7 @@ void intra_block_mode_info(ParseCtxt *parse_ctxt, PartitionInfo *xd) {
         }
         mbmi->angle_delta[PLANE_TYPE_UV] = intra_angle_info(
             r,
-            &parse_ctxt->cur_tile_ctx.angle_delta_cdf[mbmi->uv_mode - V_PRED][0],
+            parse_ctxt->cur_tile_ctx.angle_delta_cdf,
             get_uv_mode(mbmi->uv_mode),
             bsize);
     }
